@@ -30,6 +30,10 @@ def configs(tier, seed=0):
         out.append({'key': 'discrete/n%d' % n, 'geom': 'discrete', 'n': n})
         out.append({'key': 'mapped-affine/n%d' % n, 'geom': 'mapped-affine', 'n': n})
         out.append({'key': 'mapped-square/n%d' % n, 'geom': 'mapped-square', 'n': n})
+    # a map composed with a geometry whose fun2par is a genuine projection/inverse (does not commute with the map)
+    for inner in ['kl2of4', 'kl4of4', 'step2of4']:
+        for mp in ['shift', 'affine']:
+            out.append({'key': 'mapped-%s/%s' % (mp, inner), 'geom': 'mapped-over', 'inner': inner, 'map': mp})
     for shp in ([(2, 2), (2, 3)] if tier == 'quick' else [(2, 2), (2, 3), (3, 2), (3, 3)]):
         out.append({'key': 'cont2d/%dx%d' % shp, 'geom': 'cont2d', 'shape': list(shp)})
         out.append({'key': 'default2d/%dx%d' % shp, 'geom': 'default2d', 'shape': list(shp)})
@@ -67,6 +71,12 @@ def make(cfg, conc):
     if g == 'mapped-square':
         sq = (lambda f: np.sqrt(f)) if conc else (lambda f: np.array([e.sqrt() if core.is_sym(e) else math.sqrt(e) for e in np.asarray(f, dtype=object).ravel()], dtype=object).reshape(np.shape(f)))
         return G.MappedGeometry(G.Continuous1D(cfg['n']), map=lambda x: x ** 2, imap=sq)
+    if g == 'mapped-over':
+        inner = {'kl2of4': lambda: G.KLExpansion(np.linspace(0, 1, 4), num_modes=2), 'kl4of4': lambda: G.KLExpansion(np.linspace(0, 1, 4), num_modes=4),
+                 'step2of4': lambda: G.StepExpansion(np.linspace(0, 1, 4), n_steps=2)}[cfg['inner']]()
+        if cfg['map'] == 'shift':
+            return G.MappedGeometry(inner, map=lambda x: x + 3, imap=lambda f: f - 3)
+        return G.MappedGeometry(inner, map=lambda x: 2 * x + 1, imap=lambda f: (f - 1) / 2)
     if g == 'cont2d':
         return G.Continuous2D(tuple(cfg['shape']))
     if g == 'default2d':
